@@ -18,6 +18,8 @@ def gen_scenario(rng):
         env0["PATH"] = "/usr/bin::/opt/x/bin:/usr/bin:/bin:"
     if rng.random() < 0.3:
         env0["LD_LIBRARY_PATH"] = "/usr/lib:/usr/lib"
+    if rng.random() < 0.4:
+        env0["XLIST"] = rng.choice(["/pre/x;/pre/y", "/pre/x", ";/pre/x;;/pre/y;"])
     if rng.random() < 0.15:
         n = rng.choice(sorted(w["products"]))
         env0[n.upper() + "_HOME"] = "preexisting"
